@@ -542,6 +542,53 @@ func runAll(c *run.Ctx) {
 			Pair(k, domain, a, b, false)
 		})
 	}
+	// near misses at scale: a vertex a few clearances (2..40 x 1e-6 M) away from the interior of a segment about
+	// as long as the magnitude M of the coordinates (1e3..1e9): exactly disjoint, and inside the domain
+	for i := 0; i < c.N(600, 8000); i++ {
+		c.Case("near-miss", i, func(k *run.K) {
+			r := k.Rng
+			M := []float64{1e3, 1e6, 1e7, 1e8, 1e9}[r.Intn(5)]
+			ox, oy := math.Floor(r.Float64()*M/4), math.Floor(r.Float64()*M/4)
+			ax, ay := ox, oy
+			bx, by := ox+math.Floor(M*(0.5+r.Float64()/2)), oy+math.Floor(M*(r.Float64()-0.3))
+			s := 0.15 + 0.7*r.Float64()
+			fx, fy := ax+s*(bx-ax), ay+s*(by-ay)
+			ln := math.Hypot(bx-ax, by-ay)
+			nx, ny := -(by-ay)/ln, (bx-ax)/ln
+			if r.Bool() {
+				nx, ny = -nx, -ny
+			}
+			d := float64(r.Range(2, 40)) * 1e-6 * M * 2
+			px, py := fx+d*nx, fy+d*ny
+			var a, b geom.Geometry
+			if r.Bool() {
+				a = geom.NewLineStringXY(ax, ay, bx, by).AsGeometry()
+			} else { // a triangle on the far side of the segment
+				cx, cy := fx-nx*ln/3, fy-ny*ln/3
+				a = geom.NewPolygonXY([]float64{ax, ay, bx, by, cx, cy, ax, ay}).AsGeometry()
+			}
+			switch r.Intn(3) {
+			case 0:
+				b = geom.NewPointXY(px, py).AsGeometry()
+			case 1: // a small square beyond P
+				h := d / 2
+				qx, qy := px+nx*h, py+ny*h
+				b = geom.NewPolygonXY([]float64{qx - h/2, qy - h/2, qx + h/2, qy - h/2, qx + h/2, qy + h/2, qx - h/2, qy + h/2, qx - h/2, qy - h/2}).AsGeometry()
+			default: // a short line starting at P and leading away
+				b = geom.NewLineStringXY(px, py, px+nx*d*3, py+ny*d*3).AsGeometry()
+			}
+			if !exact.ValidGeom(a).OK || !exact.ValidGeom(b).OK {
+				k.Skip("member-in")
+				return
+			}
+			k.In("domain", gen.DGP)
+			k.In("magnitude", fmt.Sprint(M))
+			k.In("a", shared.WKT(a))
+			k.In("b", shared.WKT(b))
+			Pair(k, gen.DGP, a, b, false)
+			Pair(k, gen.DGP, b, a, false)
+		})
+	}
 	// multiplicity: hundreds of copies of a few overlapping areal members (counts around 256 and 512) in a
 	// UnionMany list or as the members of a collection operand: the point set is that of the distinct members
 	for i := 0; i < c.N(120, 1500); i++ {
